@@ -29,3 +29,52 @@ Proof.
   - exact (honest_first_cell O17 L17 8 3 g17 eq_refl rr17 eq_refl Lp17 Lp17_honest ltac:(lia)).
   - intros idx Hi. exact (honest_lagrange_term_is_poly O17 L17 8 3 g17 eq_refl rr17 eq_refl Lp17 Lp17_honest g17_primitive idx Hi).
 Qed.
+
+(* ---- the NON-STAGE hypotheses of C01_stark_complete_lagrange(_partial) are jointly satisfiable: Z/17, n = 8 = 2^3, g = 2, the constant
+   column T5 with the AIR air5 of Proofs/StarkExamples.v as ordinary part (quotient Qc = 0), the honest kernel column above, Lagrange
+   constraints of the shape LagrangeKernelTransitionConstraints::new builds, z = 6, query points 3 and 5 (none of the opening points
+   6, 12, 7, 11 of the kernel column); consequence: the Lagrange part of the composition polynomial exists with at most 8 coefficients *)
+From VModel Require Enforce.
+From VProofs Require Import StarkLagrange.
+Definition lc17 : @LagC (Zp 17%Z) :=
+  mkLagC (EnforceLagrange.mkLTC [e17 3%Z; e17 4%Z; e17 9%Z]
+            [Enforce.mkD [(1%Z, fone O17)] []; Enforce.mkD [(2%Z, fone O17)] []; Enforce.mkD [(4%Z, fone O17)] []])
+         rr17 (e17 10%Z).
+
+Example lagrange_capstone_hyps_nonvacuous :
+  8 = 2 ^ 3 /\ 2 <= 3 /\ 3 < 64 /\ primitive_root O17 g17 8 /\ 8 * 1 <= 16 /\
+  [T5] <> [] /\ Forall (fun p : list (Zp 17%Z) => length p = 8) [T5] /\ length Lp17 = 8 /\
+  (forall x, ~ In x (domain O17 g17 8) -> air5 x (evals O17 [T5] x) (evals O17 [T5] (fmul O17 x g17)) = peval O17 [] x) /\
+  length (EnforceLagrange.l_coef (lc_t lc17)) = 3 /\ length (lc_rr lc17) = 3 /\ length (EnforceLagrange.l_div (lc_t lc17)) = 3 /\
+  (forall idx, idx < 3 -> nth idx (EnforceLagrange.l_div (lc_t lc17)) (Enforce.mkD [] []) = Enforce.mkD [((2 ^ Z.of_nat idx)%Z, fone O17)] []) /\
+  (forall i, i < 8 -> peval O17 Lp17 (fpow O17 g17 i) = nth i (StarkLagrange.kernel_col O17 (lc_rr lc17) 3) (fzero O17)) /\
+  ~ In (c_z coin5) (domain O17 g17 8) /\ c_z coin5 <> fzero O17 /\ fmul O17 (c_z coin5) g17 <> fzero O17 /\
+  NoDup (c_xs coin5) /\ c_xs coin5 <> [] /\ length (c_xs coin5) <= 255 /\
+  (forall x, In x (c_xs coin5) -> ~ In x (lag_pts O17 g17 (c_z coin5) 3)) /\
+  exists Ql, length Ql <= 8 /\
+    forall x, ~ In x (domain O17 g17 8) -> lag_tot O17 lc17 (lag_frame O17 g17 3 Lp17 x) x = peval O17 Ql x.
+Proof.
+  assert (Hdiv : forall idx, idx < 3 -> nth idx (EnforceLagrange.l_div (lc_t lc17)) (Enforce.mkD [] []) = Enforce.mkD [((2 ^ Z.of_nat idx)%Z, fone O17)] []).
+  { intros idx Hi. do 3 (destruct idx as [|idx]; [reflexivity|]). lia. }
+  assert (Hhon : forall i, i < 8 -> peval O17 Lp17 (fpow O17 g17 i) = nth i (StarkLagrange.kernel_col O17 (lc_rr lc17) 3) (fzero O17)).
+  { intros i Hi. exact (Lp17_honest i Hi). }
+  assert (Hair : forall x, ~ In x (domain O17 g17 8) -> air5 x (evals O17 [T5] x) (evals O17 [T5] (fmul O17 x g17)) = peval O17 [] x).
+  { intros x _. unfold air5. cbn [evals map nth]. rewrite !T5_eval. cbn [Stark.peval]. ring. }
+  assert (Hz : ~ In (c_z coin5) (domain O17 g17 8)).
+  { cbn [c_z coin5]. intros H. apply (In_domain O17) in H. destruct H as (i & Hi & E).
+    do 8 (destruct i as [|i]; [zp_neq E|]). lia. }
+  assert (Hz0 : c_z coin5 <> fzero O17) by (intros E; zp_neq E).
+  assert (Hzg : fmul O17 (c_z coin5) g17 <> fzero O17) by (intros E; zp_neq E).
+  assert (Hnd : NoDup (c_xs coin5)).
+  { cbn [c_xs coin5]. constructor; [intros [E|[]]; zp_neq E | constructor; [intros [] | constructor]]. }
+  assert (Hq : forall x, In x (c_xs coin5) -> ~ In x (lag_pts O17 g17 (c_z coin5) 3)).
+  { cbn [c_xs c_z coin5]. unfold lag_pts. cbn [seq map]. intros x [<-|[<-|[]]] [E|[E|[E|[E|[]]]]]; zp_neq E. }
+  assert (HT : Forall (fun p : list (Zp 17%Z) => length p = 8) [T5]) by (repeat constructor).
+  assert (HTne : [T5] <> []) by discriminate.
+  assert (Hxne : c_xs coin5 <> []) by discriminate.
+  pose proof g17_primitive as Hg.
+  repeat (split; [first [assumption | reflexivity | (simpl; lia)] |]).
+  destruct (honest_lag_quotient O17 L17 8 3 g17 eq_refl g17_primitive lc17 eq_refl eq_refl eq_refl Hdiv ltac:(lia) Lp17 Hhon ltac:(lia))
+    as (Ql & Hl & HQ).
+  exists Ql. split; [exact Hl | exact HQ].
+Qed.
